@@ -25,6 +25,7 @@ def run(ctx, res):
     dedup_rule(ctx, res)
     visitor_rule(ctx, res)
     C16.de_rule(ctx, res, only={"any"}, rule="C17.de.value")
+    C16.access_rule(ctx, res, rule="C17.de.access")
     # "duplicate keys collapse to the first position holding the last value" is what Object::insert does, if it is right:
     # C06.model restricted to insert (the entries afterwards, the removed entries, the index exact again)
     from . import C06
